@@ -1,3 +1,253 @@
-import GoStd.Bytes
+/-
+C03 — One request, one destination, chosen by a fixed precedence.
+
+"Every received request is sent to exactly one destination, chosen in this order: (1) the first
+remaining Route entry; (2) the static route for the host of the To URI; (3) one backend of the
+service if the Request-URI matches …. A request matching none of these is dropped; no request is
+ever sent to two destinations."
+
+Model: Proxy.Model (`step` = handleRawMessage → handleDialog → HandleMessage). The statements hold
+for every configuration, state and event unless a hypothesis says otherwise ("at most one" is
+unconditional; "exactly one" fails only where the chosen destination cannot be reached: no
+transport for the hop, or an empty rotation — both visible in the closed forms below).
+-/
+import Lemmas.Relay
+import Lemmas.RelaySample
+import Props.C05
+open GoStd Sip Proxy Lemmas
+
 namespace Props.C03
+
+/-! ### no message is ever sent to two destinations -/
+
+theorem handleMessage_length (cfg : Cfg) (st : St) (ev : RawEv) (m : Message) :
+    (handleMessage cfg st ev m).2.length ≤ 1 := by
+  unfold handleMessage
+  simp only []
+  split
+  · split
+    · exact sendMessage_length _ _ _ _
+    · split
+      · exact sendToBackend_length _ _ _ _
+      · simp
+  · split
+    · simp
+    · exact sendMessage_length _ _ _ _
+
+/-- For ALL configurations, states and events (requests and responses alike) one received message
+produces at most one output. -/
+theorem C03_at_most_one (cfg : Cfg) (st : St) (ev : RawEv) : (step cfg st ev).2.length ≤ 1 := by
+  unfold step
+  exact handleMessage_length _ _ _ _
+
+/-! ### the order of precedence -/
+
+/-- (1) before (2): when the Route yields a hop, the static-route table is not consulted. -/
+theorem C03_route_first (cfg : Cfg) (m m1 : Message) (h : Hop)
+    (hr : getNextRequestHopByRoute cfg m = (some h, m1)) : getNextRequestHop cfg m = (some h, m1) := by
+  unfold getNextRequestHop
+  rw [hr]
+
+/-- (2) only after (1): without a usable Route entry the hop is the static route's verdict (on the
+message as the Route lookup left it). -/
+theorem C03_static_second (cfg : Cfg) (m m1 : Message)
+    (hr : getNextRequestHopByRoute cfg m = (none, m1)) :
+    getNextRequestHop cfg m = getNextRequestHopByConfig cfg m1 := by
+  unfold getNextRequestHop
+  rw [hr]
+
+/-- the message a request leaves with when a hop was found: own Via (+ Record-Route) only towards a
+host a listener was learned for -/
+def hopMessage (cfg : Cfg) (st : St) (ev : RawEv) (hop : Hop) (m1 : Message) : Message :=
+  match assocGet st.learned hop.host with
+  | some t => insertSelf cfg m1 t ev.branch
+  | none => m1
+
+/-- (1)/(2) before (3): a request with a next hop goes to that hop and nowhere else; no backend is
+involved (neither the pin list nor the rotation is read or written). -/
+theorem C03_precedence_hop (cfg : Cfg) (st : St) (ev : RawEv) (m m1 : Message) (hop : Hop)
+    (hreq : isRequest m = true) (hh : getNextRequestHop cfg m = (some hop, m1)) :
+    handleMessage cfg st ev m = sendMessage cfg st hop (hopMessage cfg st ev hop m1) := by
+  unfold handleMessage hopMessage
+  rw [if_pos hreq, hh]
+  rfl
+
+/-- (3): a request without next hop that is addressed to the service goes to a backend. -/
+theorem C03_precedence_backend (cfg : Cfg) (st : St) (ev : RawEv) (m m1 : Message)
+    (hreq : isRequest m = true) (hh : getNextRequestHop cfg m = (none, m1))
+    (hmy : isMyMessage cfg ev.frm m1 ev.rxMatch = true) :
+    handleMessage cfg st ev m = sendToBackend cfg st m1 ev.branch := by
+  unfold handleMessage
+  rw [if_pos hreq, hh]
+  simp only [hmy, ↓reduceIte]
+
+/-- a request matching none of the three is dropped, the state untouched. -/
+theorem C03_precedence_drop (cfg : Cfg) (st : St) (ev : RawEv) (m m1 : Message)
+    (hreq : isRequest m = true) (hh : getNextRequestHop cfg m = (none, m1))
+    (hmy : isMyMessage cfg ev.frm m1 ev.rxMatch = false) :
+    handleMessage cfg st ev m = (st, []) := by
+  unfold handleMessage
+  rw [if_pos hreq, hh]
+  simp only [hmy, Bool.false_eq_true, ↓reduceIte]
+
+/-- The three cases in one statement, on the outputs. -/
+theorem C03_precedence (cfg : Cfg) (st : St) (ev : RawEv) (m : Message) (hreq : isRequest m = true) :
+    (handleMessage cfg st ev m).2 =
+      match getNextRequestHop cfg m with
+      | (some hop, m1) => (sendMessage cfg st hop (hopMessage cfg st ev hop m1)).2
+      | (none, m1) =>
+        if isMyMessage cfg ev.frm m1 ev.rxMatch then (sendToBackend cfg st m1 ev.branch).2 else [] := by
+  split
+  · rename_i hop m1 hh
+    rw [C03_precedence_hop cfg st ev m m1 hop hreq hh]
+  · rename_i m1 hh
+    by_cases hmy : isMyMessage cfg ev.frm m1 ev.rxMatch = true
+    · rw [C03_precedence_backend cfg st ev m m1 hreq hh hmy, if_pos hmy]
+    · rw [C03_precedence_drop cfg st ev m m1 hreq hh (by simpa using hmy), if_neg hmy]
+
+/-- Everything a hop-bound request emits goes through the ONE transport entry looked up for the
+hop, and carries the same bytes. -/
+theorem C03_hop_single_entry (cfg : Cfg) (st : St) (hop : Hop) (m : Message) :
+    (sendMessage cfg st hop m).2 = [] ∨
+    ∃ tr key e, sendLookup cfg st hop m = some (tr, key, e) ∧
+      (sendMessage cfg st hop m).2 = entrySend e ((sentMessage cfg m).bytes cfg.cm) := by
+  rw [sendMessage_out]
+  cases h : sendLookup cfg st hop m with
+  | none => left; rfl
+  | some p =>
+    obtain ⟨tr, key, e⟩ := p
+    right; exact ⟨tr, key, e, rfl, rfl⟩
+
+/-! ### the backend chosen in case (3) -/
+
+/-- Whatever `sendToBackend` emits is addressed to a backend: the member the dialog is pinned to,
+or else the rotation's pick, which is a current member of the rotation. -/
+theorem C03_backend_is_member (cfg : Cfg) (st : St) (m : Message) (br : Bytes) (a d : Bytes)
+    (h : (sendToBackend cfg st m br).2 = [.backend a d]) :
+    (findBackendByDialog cfg st m).1 = some (.member a) ∨
+    (((findBackendByDialog cfg st m).1 = none ∨ (findBackendByDialog cfg st m).1 = some .rotation) ∧
+      (Side.RR.dispatch st.rr).2 = some a ∧ a ∈ st.rr.backends) := by
+  cases h0 : cfg.transports0 with
+  | none => rw [sendToBackend_none cfg st m br h0] at h; cases h
+  | some t0 =>
+    rw [sendToBackend_out cfg st m br t0 h0] at h
+    unfold sbBackend at h
+    have key : ∀ b, (findBackendByDialog cfg st m).1.getD .rotation = b →
+        (b = .rotation → (findBackendByDialog cfg st m).1 = none ∨ (findBackendByDialog cfg st m).1 = some .rotation) ∧
+        (∀ x, b = .member x → (findBackendByDialog cfg st m).1 = some (.member x)) := by
+      intro b hb
+      cases hf : (findBackendByDialog cfg st m).1 with
+      | none => rw [hf] at hb; simp at hb; subst hb; simp
+      | some y => rw [hf] at hb; simp at hb; subst hb; simp
+    cases hb : (findBackendByDialog cfg st m).1.getD .rotation with
+    | member x =>
+      rw [hb] at h
+      simp only [sbPick, List.cons.injEq, Out.backend.injEq, and_true] at h
+      left
+      rw [← h.1]
+      exact (key _ hb).2 x rfl
+    | rotation =>
+      rw [hb] at h
+      simp only [sbPick] at h
+      right
+      refine ⟨(key _ hb).1 rfl, ?_⟩
+      cases hd : (Side.RR.dispatch st.rr).2 with
+      | none => rw [hd] at h; cases h
+      | some a' =>
+        rw [hd] at h
+        simp only [List.cons.injEq, Out.backend.injEq, and_true] at h
+        have ha := h.1
+        subst ha
+        exact ⟨rfl, Props.C05.C05_member st.rr (Side.RR.dispatch st.rr).1 a' (by rw [← hd])⟩
+
+/-- … and every output of `sendToBackend` is of that kind (never a raw transport send). -/
+theorem C03_backend_only (cfg : Cfg) (st : St) (m : Message) (br : Bytes) :
+    ∀ o ∈ (sendToBackend cfg st m br).2, ∃ a d, o = .backend a d := by
+  intro o ho
+  cases h0 : cfg.transports0 with
+  | none => rw [sendToBackend_none cfg st m br h0] at ho; cases ho
+  | some t0 =>
+    rw [sendToBackend_out cfg st m br t0 h0] at ho
+    split at ho
+    · cases ho
+    · simp only [List.mem_singleton] at ho
+      exact ⟨_, _, ho⟩
+
+/-! ### "exactly one" where the destination is reachable -/
+
+/-- Case (3) emits exactly one message as soon as the service has a listener towards its backends
+and the backend object can deliver: the dialog is pinned to a member, or the rotation is not empty. -/
+theorem C03_backend_exactly_one (cfg : Cfg) (st : St) (m : Message) (br : Bytes) (t0 : Listener)
+    (h0 : cfg.transports0 = some t0)
+    (hb : (∃ a, (findBackendByDialog cfg st m).1 = some (.member a)) ∨ st.rr.backends ≠ []) :
+    (sendToBackend cfg st m br).2.length = 1 := by
+  rw [sendToBackend_out cfg st m br t0 h0]
+  have : ∃ a, (sbPick st.rr (sbBackend cfg st m)).2 = some a := by
+    cases hs : sbBackend cfg st m with
+    | member a => exact ⟨a, rfl⟩
+    | rotation =>
+      rcases hb with ⟨a, ha⟩ | hne
+      · simp [sbBackend, ha] at hs
+      · exact Props.C05.C05_nonempty_sends st.rr hne
+  obtain ⟨a, ha⟩ := this
+  rw [ha]
+  rfl
+
+/-- With an empty rotation and no pin the request is dropped (C05's "dropped without disturbing
+the proxy"), never sent elsewhere. -/
+theorem C03_backend_none (cfg : Cfg) (st : St) (m : Message) (br : Bytes)
+    (hp : (findBackendByDialog cfg st m).1 = none) (hb : st.rr.backends = []) :
+    (sendToBackend cfg st m br).2 = [] := by
+  cases h0 : cfg.transports0 with
+  | none => rw [sendToBackend_none cfg st m br h0]
+  | some t0 =>
+    rw [sendToBackend_out cfg st m br t0 h0]
+    have : sbBackend cfg st m = .rotation := by simp [sbBackend, hp]
+    rw [this]
+    simp only [sbPick, Props.C05.C05_empty_drops st.rr hb]
+
+/-- Cases (1)/(2) emit exactly one message when the hop has a transport with a live primary. -/
+theorem C03_hop_exactly_one (cfg : Cfg) (st : St) (hop : Hop) (m : Message)
+    (tr : List (Bytes × TransEntry)) (key : Bytes) (e : TransEntry)
+    (hl : sendLookup cfg st hop m = some (tr, key, e)) (hp : e.primary ≠ none) :
+    (sendMessage cfg st hop m).2.length = 1 := by
+  rw [sendMessage_out, hl]
+  simp only [entrySend]
+  split
+  · rfl
+  · rfl
+  · rename_i h; exact absurd h hp
+
+/-! ### non-vacuity: each case of the precedence occurs on the sample configuration -/
+
+open Lemmas.Sample in
+example : isRequest routed = true ∧ (getNextRequestHopByRoute cfg routed).1 =
+    some { host := str "10.0.0.7", port := 5080, transport := str "udp" } := by decide +kernel
+open Lemmas.Sample in
+example : isRequest static = true ∧ (getNextRequestHopByRoute cfg static).1 = none ∧
+    (getNextRequestHop cfg static).1 = some { host := str "10.0.0.9", port := 5070, transport := str "udp" } := by
+  decide +kernel
+open Lemmas.Sample in
+example : isRequest invite = true ∧ (getNextRequestHop cfg invite).1 = none ∧
+    isMyMessage cfg (ev invite).frm (getNextRequestHop cfg invite).2 (ev invite).rxMatch = true := by decide +kernel
+open Lemmas.Sample in
+example : isRequest stray = true ∧ (getNextRequestHop cfg stray).1 = none ∧
+    isMyMessage cfg (ev stray).frm (getNextRequestHop cfg stray).2 (ev stray).rxMatch = false ∧
+    (step cfg st (ev stray)).2 = [] := by decide +kernel
+open Lemmas.Sample in
+/-- a hop with a fresh UDP transport: exactly one datagram -/
+example : (sendLookup cfg st { host := str "10.0.0.7", port := 5080, transport := str "udp" } routed).map
+    (fun p => p.2.2.primary.isSome) = some true := by decide +kernel
+open Lemmas.Sample in
+example : cfg.transports0 = some lsn ∧ st.rr.backends ≠ [] ∧ (findBackendByDialog cfg st invite).1 = none ∧
+    (findBackendByDialog cfg st bye).1 = some (.member b1) := by decide +kernel
+open Lemmas.Sample in
+/-- unpinned: the rotation's pick, a current member -/
+example : ∃ d, (sendToBackend cfg st invite (str "z9hG4bKown")).2 = [.backend b2 d] :=
+  ⟨(sbMessage cfg st invite lsn (str "z9hG4bKown")).bytes cfg.cm, by decide +kernel⟩
+open Lemmas.Sample in
+/-- pinned: the pinned member -/
+example : ∃ d, (sendToBackend cfg st bye (str "z9hG4bKown")).2 = [.backend b1 d] :=
+  ⟨(sbMessage cfg st bye lsn (str "z9hG4bKown")).bytes cfg.cm, by decide +kernel⟩
+
 end Props.C03
